@@ -412,6 +412,45 @@ def deferred(d, loop, nmin, nmax, tmax, lead=None):
     d.reach()
 
 
+@meta(bounds="k calls handed to core.deferred with arguments: each call symbolically one of {plain function, the same bound "
+             "method of one object} with a positional argument from {1, 2, [1]} (the list built afresh each time: equal, not "
+             "identical) and an optional keyword argument - so equal (function, arguments) pairs are handed in repeatedly; "
+             "loop = the real core.run on the virtual clock or core.run_once.  Oracle: the calls made, with the arguments "
+             "received, equal the submissions in order - each submission is called exactly once, repeated or not",
+      outside="more than k submissions; functions that raise (see `deferred`)",
+      stubs=STUBS, assumes=[])
+def deferred_repeat(d, loop, k):
+    w = World()
+    log = []
+
+    def plain(*a, **kw):
+        log.append(("plain", a, tuple(sorted(kw.items()))))
+
+    class _Obj(object):
+        def meth(self, *a, **kw):
+            log.append(("meth", a, tuple(sorted(kw.items()))))
+    o = _Obj()
+    want = []
+    for i in range(k):
+        which = d.pick(["plain", "meth"], 'callable%d' % i)
+        arg = d.pick([1, 2, "list"], 'arg%d' % i)
+        a = ([1],) if arg == "list" else (arg,)
+        kw = {"x": 7} if d.bool('keyword%d' % i) else {}
+        core.deferred(plain if which == "plain" else o.meth, *a, **kw)
+        want.append((which, a, tuple(sorted(kw.items()))))
+    if loop == "run":
+        w.run(until=w.clock, max_loops=4 * k + 8)
+    else:
+        core.run_once()
+    if log != want:
+        kind = "deferred-repeat-dropped" if len(log) < len(want) else "deferred-repeat-calls"
+        raise Violation(kind, loop=loop, submitted=[(x[0], repr(x[1])) for x in want], called=[(x[0], repr(x[1])) for x in log])
+    core.run_once()
+    if log != want:
+        raise Violation("deferred-called-again", loop=loop)
+    d.reach()
+
+
 def _prefixes(k):
     out = [[]]
     for _ in range(k):
@@ -473,9 +512,11 @@ def instances(tier):
     for loop in ("run", "run_once"):
         if q:
             out.append(Inst(deferred, dict(loop=loop, nmin=0, nmax=3, tmax=2), budget=90))
+            out.append(Inst(deferred_repeat, dict(loop=loop, k=3), budget=90))
             out.append(Inst(deferred, dict(loop=loop, nmin=4, nmax=4, tmax=2), budget=120))
         else:
             out.append(Inst(deferred, dict(loop=loop, nmin=0, nmax=3, tmax=3), budget=600))
+            out.append(Inst(deferred_repeat, dict(loop=loop, k=4), budget=600))
             out.append(Inst(deferred, dict(loop=loop, nmin=4, nmax=4, tmax=2), budget=600))
             out.append(Inst(deferred, dict(loop=loop, nmin=5, nmax=5, tmax=2), budget=900))
             for r0 in (False, True):
